@@ -247,6 +247,69 @@ func ruleTabDate(c *Ctx, r *Rep) {
 				}
 				v = ex.Tuple
 			}
+			// table-driven form: counts[k], filled in a loop over a package-level list of (group, unit) entries
+			if ld, isLd := v.(*ssa.UnOp); isLd && ld.Op == token.MUL {
+				if ia, isIA := ld.X.(*ssa.IndexAddr); isIA {
+					if arr, isAl := ia.X.(*ssa.Alloc); isAl {
+						if kc, isK := ia.Index.(*ssa.Const); isK && arr.Referrers() != nil {
+							for _, u := range *arr.Referrers() {
+								ia2, ok := u.(*ssa.IndexAddr)
+								if !ok || ia2 == ia || ia2.Referrers() == nil {
+									continue
+								}
+								for _, uu := range *ia2.Referrers() {
+									st, ok := uu.(*ssa.Store)
+									if !ok || st.Addr != ssa.Value(ia2) {
+										continue
+									}
+									// value: atoi(submatch[entry.group]) for the entry with the same index as the store
+									sv := st.Val
+									if ex, ok := sv.(*ssa.Extract); ok {
+										sv = ex.Tuple
+									}
+									ac, ok := sv.(*ssa.Call)
+									if !ok || len(ac.Call.Args) == 0 {
+										continue
+									}
+									cal := ac.Call.StaticCallee()
+									if !(calleeFullName(ac) == "strconv.Atoi" || (cal != nil && c.InModule(cal) && wrapsAtoi(cal))) {
+										continue
+									}
+									al, ok := ac.Call.Args[len(ac.Call.Args)-1].(*ssa.UnOp)
+									if !ok {
+										continue
+									}
+									gia, ok := al.X.(*ssa.IndexAddr)
+									if !ok {
+										continue
+									}
+									sub, ok := gia.X.(*ssa.Call)
+									if !ok || calleeFullName(sub) != "(*regexp.Regexp).FindStringSubmatch" {
+										continue
+									}
+									tab, fname := tableElemField(gia.Index)
+									if tab == nil {
+										continue
+									}
+									rows, why := tableRows(c, c.evaluator(), tab)
+									if why != "" || int(kc.Int64()) >= len(rows) {
+										return "?table " + why
+									}
+									g, okG := rows[kc.Int64()][fname].Int()
+									if !okG {
+										return "?table entry is not a constant group number"
+									}
+									subCalls = append(subCalls, sub)
+									if u := groups[int(g)]; u != "" {
+										return u
+									}
+									return sprintf("?group %d is not a digit group followed by a unit letter", g)
+								}
+							}
+						}
+					}
+				}
+			}
 			call, ok := v.(*ssa.Call)
 			if !ok || len(call.Call.Args) == 0 {
 				return "?" + v.String()
